@@ -656,12 +656,14 @@ fn bin_case(rng: &mut Rng) -> String {
     if cfg.lt == Lt::Nul {
         cfg.lt = Lt::Lf;
     }
-    cfg.bin = if rng.chance(1, 2) { Bin::Quit(0) } else { Bin::Convert(0) };
+    // the binary byte: NUL, a letter that also occurs in ordinary lines, or a byte that is not valid UTF-8
+    let bb = *rng.pick(&[0u8, 0, b'y', 0xff]);
+    cfg.bin = if rng.chance(1, 2) { Bin::Quit(bb) } else { Bin::Convert(bb) };
     let needle: &[u8] = b"x";
     let mut input = gen_lit_input(rng, cfg.lt, needle, 6, 1, 2);
-    // at least one NUL, at a random place (possibly inside or after a matching line)
+    // at least one such byte, at a random place (possibly inside or after a matching line)
     let at = rng.range(0, input.len());
-    input.insert(at, 0);
+    input.insert(at, bb);
     let m = gen_lit_matcher(rng, &cfg, needle);
     Case { cfg, m, input, script: None }.line()
 }
@@ -974,6 +976,8 @@ fn cli_maxcount_run(line: &str, ctx: &mut Ctx) {
 
     ctx.files += 1;
     let f = scratch_file(&ctx.scratch, &format!("c16-cli-{}.txt", ctx.files % 16), &input);
+    let access = (input.len() + nlim as usize + cfg.a + 2 * cfg.b) % 3;
+    ctx.rep.branch(["cli-maxcount:mmap", "cli-maxcount:no-mmap", "cli-maxcount:stdin"][access]);
     let run = |extra: &[&str]| -> (String, i32) {
         let mut c = std::process::Command::new(rg);
         c.env_remove("RIPGREP_CONFIG_PATH").arg("--no-config").arg("--color").arg("never").arg("-j1").arg("-F");
@@ -990,7 +994,19 @@ fn cli_maxcount_run(line: &str, ctx: &mut Ctx) {
         for x in extra {
             c.arg(x);
         }
-        c.arg("-e").arg(needle).arg(&f).stdin(std::process::Stdio::null());
+        c.arg("-e").arg(needle);
+        // how the file reaches the searcher: memory map (slice strategy), read (reader strategy), or standard input
+        match access {
+            0 => {
+                c.arg("--mmap").arg(&f).stdin(std::process::Stdio::null());
+            }
+            1 => {
+                c.arg("--no-mmap").arg(&f).stdin(std::process::Stdio::null());
+            }
+            _ => {
+                c.arg("-").stdin(std::fs::File::open(&f).map(std::process::Stdio::from).unwrap_or(std::process::Stdio::null()));
+            }
+        }
         match c.output() {
             Ok(o) => (String::from_utf8_lossy(&o.stdout).to_string(), o.status.code().unwrap_or(-1)),
             Err(e) => (format!("spawn failed: {}", e), -2),
